@@ -51,7 +51,7 @@ func runC04(c *Ctx) {
 	}
 	parms, _ := c.prefixDispatch()
 	c04Context(c)
-	c04Wiring(c, barms, parms)
+	c04Wiring(c, "C04.operator-wiring", barms, parms, false)
 	c04NoFloat(c, barms, "C04.no-binary-float")
 }
 
@@ -99,8 +99,7 @@ func c04Context(c *Ctx) {
 	c.R.Add(rule, "no-context-field-writes", "-", OK, "")
 }
 
-func c04Wiring(c *Ctx, barms, parms map[int64]OpArm) {
-	const rule = "C04.operator-wiring"
+func c04Wiring(c *Ctx, rule string, barms, parms map[int64]OpArm, unaryOnly bool) {
 	depth := 0
 	var check func(sym, method string, h *ssa.Function, pos string, binary bool)
 	check = func(sym, method string, h *ssa.Function, pos string, binary bool) {
@@ -196,6 +195,9 @@ func c04Wiring(c *Ctx, barms, parms map[int64]OpArm) {
 		c.R.Check(rule, sym, c.P.InstrPos(dc), okName && okOps && fresh && retOK, fmt.Sprintf("`%s` on numbers must be decimal %s(left, right) into a fresh Context128 number and return it: operation=%s (want %s), operands in order=%v, result number fresh from newDecimalBig=%v (%s), returned=%v", sym, method, cal.Name(), method, okOps, fresh, whyF, retOK))
 	}
 	for _, s := range arithSpecs {
+		if unaryOnly {
+			break
+		}
 		arm := barms[c.SK(s.tok)]
 		check(s.sym, s.method, arm.Handler, arm.Pos, true)
 	}
@@ -224,7 +226,11 @@ func c04Wiring(c *Ctx, barms, parms map[int64]OpArm) {
 			}
 		}
 	}
-	c.R.Floor(rule, 6)
+	if unaryOnly {
+		c.R.Floor(rule, 2)
+	} else {
+		c.R.Floor(rule, 6)
+	}
 }
 
 func sameRoots(a, b []Root) bool {
